@@ -10,7 +10,7 @@ if not os.path.isdir(src):
 dst = os.path.join('/verif/seeded', sid)
 os.makedirs(dst, exist_ok=True)
 # re-base the patch on the current /repo HEAD through the trial worktree
-trial = '/tmp/rebase'
+trial = os.environ.get('KEEP_WT', '/tmp/keepwt')
 if not os.path.isdir(trial):
     subprocess.run(['git', '-C', '/repo', 'worktree', 'add', '-q', '--detach', trial, 'HEAD'], check=True)
 head = subprocess.check_output(['git', '-C', '/repo', 'rev-parse', 'HEAD'], text=True).strip()
